@@ -13,6 +13,7 @@ call; what survives on disk (tmp and final directory) is projected to the
 abstract file system, ovniemu -l is run on it, and the record is validated
 by RtFsTrace: the state must be the model's state at that crash point and
 the C09 monitors are evaluated with the observed emulator verdict.
+(2b) C09 also runs the error-injection family of (3), judged by the C09 monitors only.
 (3) C10: for every libovni call index N an error is injected (ENOSPC / EIO /
 EACCES, the call is not executed); the outcome (abort with diagnostic /
 normal return), the disk state and the emulator verdicts are judged by the
@@ -385,7 +386,8 @@ def main(pid, tier):
                     continue
                 execs.append(records_for(sc, ref, res, "replay", "killed"))
                 owners.append((name, "kill@%d %s" % (i, ref["calls"][i]["sys"]), res))
-        else:
+        if True:
+            fkind = "fault" if pid == "C10" else "fault09"
             recs, idx, _ = project_calls(ref["calls"], ref["tmpd"], ref["find"])
             # every real syscall of libovni on the trace directories
             pts = []
@@ -403,7 +405,7 @@ def main(pid, tier):
             jobs = []
             for i in pts:
                 es = errs.get(ref["calls"][i]["sys"], ["EIO"])
-                for e in es:
+                for e in (es if pid == "C10" else es[:1]):
                     jobs.append((i, e))
 
             def onef(j, sc=sc, ref=ref):
@@ -417,13 +419,15 @@ def main(pid, tier):
                     outcome = "returned"
                 elif res["rc"] == 3:
                     outcome = "aborted"
+                elif pid == "C09":
+                    continue        # how the run ends under a fault is C10's business
                 else:
                     ck.violation("scenario %s with %s injected at call %d (%s): driver ended with status %s\n%s"
                                  % (name, e, i, ref["calls"][i]["sys"] + "(" + ref["calls"][i]["args"][:80] + ")",
                                     res["rc"], res["stderr"][-600:]), {"stderr.txt": res["stderr"]},
                                  sig="fault-exit-%s" % res["rc"])
                     continue
-                execs.append(records_for(sc, ref, res, "fault", outcome))
+                execs.append(records_for(sc, ref, res, fkind, outcome))
                 owners.append((name, "%s@%d %s(%s)" % (e, i, ref["calls"][i]["sys"], ref["calls"][i]["args"][:70]), res))
     ck.phase("runs")
     tvr = tv.validate("RtFsTrace", "RtFsTrace.cfg", execs, None, chunk=max(10, len(execs) // 8 + 1), parallel=8)
